@@ -8,7 +8,7 @@ PID = "C02"
 
 
 def step_check(proj, i, obs):
-    out = oracles.check_runset(proj, obs)
+    out = oracles.check_runset(proj, obs) + oracles.check_kill(proj, obs)
     op = obs["op"]
     if op[0] in ("ifchange", "redo"):
         pred = obs["pred"]
@@ -35,8 +35,10 @@ def plan(tier):
     W = worlds.curated()
     if tier == "quick":
         names = ["dynamic", "dovar", "default", "csum-deep", "csum-two-b", "csum-toggle", "csum-fan", "fan3", "diamond", "ifcreate", "always"]
-        return [(W[n], alphabet, 3, 2) for n in names]
-    p = [(W[n], alphabet, 5 if n in ("dynamic", "ifcreate", "csum-mid", "chain", "csum-two", "csum-two-b") else 4) for n in W]
+        K = ["dynamic", "chain"]
+        return [(W[n], alphabet, 3, 2) for n in names if n not in K] + [(W[n], alphabet_k, 3, 2) for n in K]
+    p = [(W[n], alphabet_k if n in ("chain", "csum-mid", "dynamic", "chain-append", "diamond", "csum-deep", "dovar", "default") else alphabet,
+          5 if n in ("dynamic", "ifcreate", "csum-mid", "chain", "csum-two", "csum-two-b") else 4) for n in W]
     G = worlds.generated()
     p += [(G[k], alphabet, 3) for k in sorted(G)]
     return p
